@@ -446,7 +446,7 @@ fn main() {
             let ops = v.get("ops").and_then(|x| x.as_array()).cloned().unwrap_or_default();
             let rt = tokio::runtime::Builder::new_multi_thread().worker_threads(2).enable_all().build().unwrap();
             rt.block_on(async {
-                match tokio::time::timeout(Duration::from_secs(170), tokio::spawn(run(ops, scratch.clone()))).await {
+                match tokio::time::timeout(Duration::from_secs(100), tokio::spawn(run(ops, scratch.clone()))).await {
                     Ok(Ok(v)) => v,
                     Ok(Err(e)) => json!({"ok": false, "error": format!("driver task failed: {}", e), "panics": PANICS.lock().unwrap().clone()}),
                     Err(_) => json!({"ok": false, "error": "segment timeout"}),
